@@ -427,6 +427,14 @@ def check_neighbour_segment(ctx, ck, rule='R-SIB.add-conn'):
                     far = c.call.args[2] if K == 1 else c.call.args[3]
                     want_far = '%s %s %s.dirvec * %s.seg_len * np.sign(self.idx_%d)' % (
                         c.args[1], '-' if K == 1 else '+', oseg, oseg, K)
+                    # (the polynomial comparison names quantities by role; which segment they are read from is
+                    # compared here: the step along the neighbour is taken on the very segment the pulse is given)
+                    recv = sorted({norm(x_.value) for x_ in ast.walk(far) if isinstance(x_, ast.Attribute)
+                                   and x_.attr in ('dirvec', 'seg_len') and 'parent.geo' in norm(x_.value)})
+                    if recv and recv != [oseg]:
+                        badn = badn or ('end %d (state %s): the outer point steps along %s but the pulse is given the segment %s'
+                                        % (K, st_, recv[0][:70], oseg[:70]), c.stmt)
+                        continue
                     try:
                         d_ = cancel(poly_roles(far, {}) - poly_roles(ast.parse(want_far, mode='eval').body, {}))
                         if d_.t != {}:
